@@ -66,6 +66,9 @@ pub fn compare_eval(r: &RedeemNode, env: &envs::Env, out: &mut Out) -> Result<&'
 fn run(ctx: &Ctx, out: &mut Out) {
     let mut specs = envs::one_deviation_envs();
     specs.extend(envs::positional_envs());
+    if ctx.tier == Tier::Thorough {
+        specs.extend(envs::two_deviation_envs());
+    }
     let built: Vec<(String, envs::Built)> = specs.iter().map(|(n, s)| (n.clone(), envs::build(s))).collect();
     leg_population(ctx, out, &built);
     leg_jets(ctx, out, &built);
